@@ -103,6 +103,11 @@ type Conn struct {
 	// (sqlite3_busy_timeout). Zero means two seconds.
 	BusyTimeout time.Duration
 
+	// CommitReturned is set as soon as the operation that finalises the current
+	// transaction (journal unlink / truncate / header zeroing; WAL write-lock
+	// release) has returned success, and cleared when a transaction starts.
+	CommitReturned bool
+
 	// HotJournalSeen is set when the connection found a journal that SQLite
 	// would have treated as hot at the start of a transaction.
 	HotJournalSeen bool
@@ -390,6 +395,7 @@ func (db *DBModel) buildImage(base *ref.Image, tx Tx, mode int) (*ref.Image, map
 func (c *Conn) ExecRollbackTx(tx Tx) (res TxResult, err error) {
 	db := c.DB
 	res.Image = db.Img
+	c.CommitReturned = false
 	if err = c.OpenDB(); err != nil {
 		return res, err
 	}
@@ -505,6 +511,19 @@ func (c *Conn) ExecRollbackTx(tx Tx) (res TxResult, err error) {
 	syncJournal := func() error {
 		if noSync {
 			return nil
+		}
+		// A persistent journal may be longer than what this transaction wrote. If
+		// the next sector boundary happens to hold a header of an older
+		// transaction, SQLite zeroes its first byte before publishing nRec so that
+		// a hot-journal rollback cannot run on into stale segments (syncJournal()).
+		if next := ((joff-1)/c.hdrSize() + 1) * c.hdrSize(); true {
+			m := make([]byte, 8)
+			if n, _ := jf.ReadAt(m, next); n == 8 && string(m) == string(journalMagic) {
+				c.op("zero stale journal header @%d", next)
+				if e := jf.WriteAt([]byte{0}, next); e != nil {
+					return opErr("zero stale journal header", e)
+				}
+			}
 		}
 		b := make([]byte, 12)
 		copy(b, journalMagic)
@@ -695,6 +714,7 @@ func (c *Conn) ExecRollbackTx(tx Tx) (res TxResult, err error) {
 	}
 	// The transaction is committed from SQLite's point of view.
 	res.Committed = true
+	c.CommitReturned = true
 	db.Img = newImg
 	db.Change++
 	db.Mode = hdrMode
